@@ -42,6 +42,15 @@ pub fn time_r(t: u64) -> u64 {
         .expect("harness: scaled time out of range")
 }
 
+/// Coarse-grid regime (DESIGN.md 3.6): real price = specification price * PRICE_SCALE (limit prices; the tick size is scaled with
+/// them, the sentinels 0 / `Price::MAX` are not).  The grid structure is preserved, so the specification's outcome is the same,
+/// while the real book runs with a tick size of 10^9 and prices of several 10^9.
+pub static PRICE_SCALE: std::sync::atomic::AtomicU32 = std::sync::atomic::AtomicU32::new(1);
+
+pub fn price_scale() -> u32 {
+    PRICE_SCALE.load(std::sync::atomic::Ordering::Relaxed)
+}
+
 pub fn price_offset() -> u32 {
     PRICE_OFFSET.load(std::sync::atomic::Ordering::Relaxed)
 }
